@@ -49,9 +49,32 @@ def main():
             sys.exit(2)
         sys.exit(ctx.finish())
     elif a.cmd == 'replay':
+        # re-run the check that produced the replay file with the same seed and tier, and report whether the recorded
+        # failure (same signature; for a broken tie: the same obligation) shows up again on the current tree
         d = json.load(open(a.path))
-        mod = importlib.import_module('harness.props.' + d['property'].lower())
-        sys.exit(mod.replay(d))
+        from harness.core import Ctx
+        pid = d['property']
+        ctx = Ctx(pid, d.get('tier', 'quick'), int(d.get('seed', 0) or 0))
+        mod = importlib.import_module('harness.props.' + pid.lower())
+        print('replaying %s (%s, seed %s): %s' % (pid, ctx.tier, ctx.seed, d.get('what') or d.get('note', '')))
+        if d.get('case') is not None:
+            print('recorded case:', json.dumps(d['case'], default=repr)[:2000])
+        mod.run(ctx)
+        if d.get('kind') == 'input':
+            hit = [f for f in ctx.spec_failures if f['sig'] == d.get('signature')]
+            if hit:
+                print('REPRODUCED: %s [%s]' % (hit[0]['what'], hit[0]['sig']))
+                print('case now:', json.dumps(hit[0]['case'], default=repr)[:2000])
+                sys.exit(1)
+            print('not reproduced on the current tree (signature %s did not occur)' % d.get('signature'))
+            sys.exit(0)
+        names = {b['name'] for b in d.get('broken_obligations', [])}
+        still = [n for n, _ in ctx.proof_failures if n in names] + (['correspondence'] if ctx.corr_failures and d.get('broken_correspondence') else [])
+        if still:
+            print('REPRODUCED: still broken: %s' % ', '.join(still))
+            sys.exit(1)
+        print('not reproduced on the current tree')
+        sys.exit(0)
     else:
         ap.print_help()
         sys.exit(2)
